@@ -281,7 +281,8 @@ func (vm *Vm) runCatch(ctx context.Context, b []byte) ([]byte, error) {
 		if err != nil {
 			return b, err
 		}
-		b = bh
+		// the buffer is appended to later on; never continue with the resource's own slice
+		b = append([]byte{}, bh...)
 	}
 	return b, nil
 }
